@@ -260,6 +260,20 @@ func (c *Ctx) runCase(ck *Check, pi int, idx uint64) {
 }
 
 // RunWorker executes the cases of one shard and writes its result file.
+// RunSingle executes exactly one case in this process (used by the parent to
+// confirm a suspected hang on an otherwise idle worker).
+func RunSingle(ck *Check, tier string, seed uint64, phase int, idx uint64) int {
+	c := newCtx(ck, tier, seed, 0, 1)
+	if ck.Init != nil {
+		ck.Init(c)
+	}
+	if phase < 0 || phase >= len(ck.Phases) {
+		return 2
+	}
+	c.runCase(ck, phase, idx)
+	return 0
+}
+
 func RunWorker(ck *Check, tier string, seed uint64, shard, shards int, fromPhase int, fromIdx uint64) int {
 	c := newCtx(ck, tier, seed, shard, shards)
 	dir := WorkDir(ck.ID)
@@ -425,7 +439,7 @@ func RunParent(ck *Check, tier string, seed uint64, self string) int {
 			shards = n
 		}
 	}
-	hangLimit := 120 * time.Second
+	hangLimit := 300 * time.Second
 	if s := os.Getenv("VERIF_HANG_S"); s != "" {
 		if n, err := strconv.Atoi(s); err == nil && n > 0 {
 			hangLimit = time.Duration(n) * time.Second
@@ -435,6 +449,7 @@ func RunParent(ck *Check, tier string, seed uint64, self string) int {
 	var mu sync.Mutex
 	var extraViol []Violation
 	var inconcl []string
+	var slow []string
 	var resFiles []string
 
 	var wg sync.WaitGroup
@@ -511,6 +526,24 @@ func RunParent(ck *Check, tier string, seed uint64, self string) int {
 				if hung {
 					kind = fmt.Sprintf("case did not terminate within %v", hangLimit)
 					isViol = ck.HangIsViolation
+					// A loaded machine can make a slow case look like a hang: the
+					// case is re-run alone, with five times the limit, before it
+					// may be called one.
+					pi := 0
+					for i := range ck.Phases {
+						if ck.Phases[i].Name == p.phase {
+							pi = i
+						}
+					}
+					mu.Unlock()
+					confirmed := confirmHang(self, ck, tier, seed, pi, p.idx, 5*hangLimit)
+					mu.Lock()
+					if !confirmed {
+						slow = append(slow, fmt.Sprintf("%s[%d] needed more than %v under load but terminates when run alone", p.phase, p.idx, hangLimit))
+						mu.Unlock()
+						fromPhase, fromIdx = pi, p.idx+1
+						continue
+					}
 				}
 				if isViol {
 					sig := "fatal:" + firstFatalLine(tail)
@@ -585,6 +618,10 @@ func RunParent(ck *Check, tier string, seed uint64, self string) int {
 	}
 	agg.Distinct = len(distinct)
 	agg.Violations = append(agg.Violations, extraViol...)
+	for _, sl := range slow {
+		fmt.Println("SLOW-CASE", sl)
+	}
+	agg.Counters["slow_cases_confirmed_to_terminate"] = int64(len(slow))
 	agg.Inconcl = append(agg.Inconcl, inconcl...)
 	if ck.Post != nil {
 		agg.Inconcl = append(agg.Inconcl, ck.Post(agg)...)
@@ -732,4 +769,24 @@ func capList(xs []string, n int) []string {
 		return xs[:n]
 	}
 	return xs
+}
+
+// confirmHang re-runs one case alone; true = it still does not terminate.
+func confirmHang(self string, ck *Check, tier string, seed uint64, phase int, idx uint64, limit time.Duration) bool {
+	cmd := exec.Command(self, "single", ck.ID, "--tier", tier, "--seed", strconv.FormatUint(seed, 10),
+		"--from-phase", strconv.Itoa(phase), "--from-idx", strconv.FormatUint(idx, 10))
+	cmd.Env = append(os.Environ(), "GOMAXPROCS=2")
+	if err := cmd.Start(); err != nil {
+		return true
+	}
+	done := make(chan error, 1)
+	go func() { done <- cmd.Wait() }()
+	select {
+	case <-done:
+		return false
+	case <-time.After(limit):
+		cmd.Process.Kill()
+		<-done
+		return true
+	}
 }
